@@ -25,6 +25,12 @@ def c05_jobs(tier):
 #    (power-of-two scaling is exact and every quotient the methods form is a ratio of equally scaled quantities; argued next to sub_scale in the harness;
 #    verified on the unchanged tree, real and complex).  Left preconditioning reports ||P r|| / ||f||, so its reported value and tolerance carry 2^-j exactly.
 #    Catches absolute thresholds inside a method (seeded change C05-3: absolute breakdown guard on <Ap,p> in CG).
+#  * exactly invariant subspaces (sub-check invariant): small (Gaussian-)integer block-diagonal systems whose initial residual is c e_k in an m x m Hessenberg block, m in {1,2,3}:
+#    H(m+1,m) is an exact floating-point zero; every method must deliver the solution within m (+L-1, +ceil(m/s)) iterations, identity or exact block preconditioner, real and complex.
+#    Blocks have positive diagonal, non-zero sub/super-diagonal and positive definite Hermitian part so that the BiCG family does not break down *mathematically*; a documented BiCG
+#    breakdown exception is accepted only if the long-double BiCG reference itself hits an exact zero quotient (e.g. block [[4,-1,1],[-1,3,1],[0,1,3]], r0 = e1: after two BiCG steps the
+#    residual is the eigenvector (0,1,1), orthogonal to the shadow vector under every power of A; BiCGStab(L=4) throws 'zero rho', L <= 2 is rescued by the polynomial step).
+#    GMRES with a restart shorter than m is not held (no finite termination).  Catches seeded change C05-7 (LGMRES leaves the inner loop before using the last Arnoldi column).
 #  * finite termination is a statement about the generator (recorded as observation termination_generator): either m <= n/2 distinct
 #    eigenvalues, or a full spectrum with kappa <= 3 and |arg| <= 0.7; calibrated on the repaired tree over 8 seeds x 800 systems
 #    (every method below 1e-8 inside its budget).
